@@ -15,6 +15,7 @@ Inductive err :=
 | EEOF             (* io.EOF *)
 | ESeek            (* Seek to a negative position *)
 | EStore (kind : N)(* error returned by the storage write opener / committer *)
+| EUnmodelled      (* the model does not cover this path (reported, never compared) *)
 | EOther.
 
 Inductive res (A : Type) :=
@@ -32,7 +33,7 @@ Notation "x <- r ;; k" := (bind r (fun x => k)) (at level 61, r at next level, r
 Definition err_eqb (a b : err) : bool :=
   match a, b with
   | ENotFound, ENotFound | EDecode, EDecode | EInvalid, EInvalid | EOverread, EOverread
-  | EEOF, EEOF | ESeek, ESeek | EOther, EOther => true
+  | EEOF, EEOF | ESeek, ESeek | EOther, EOther | EUnmodelled, EUnmodelled => true
   | ELoad x, ELoad y => N.eqb x y
   | EStore x, EStore y => N.eqb x y
   | _, _ => false
